@@ -12,6 +12,7 @@ import (
 	"fmt"
 	"os"
 	"reflect"
+	"runtime"
 	"runtime/debug"
 	"sort"
 	"strings"
@@ -412,6 +413,9 @@ func main() {
 
 		var obsTerms []string
 		var obsOuts []obsOut
+		// every printed clone stays reachable until the case is written: an address is never reused within a
+		// case, so equal labels always mean shared memory and the terms are reproducible
+		var alive []any
 		var notes []string
 		for _, ks := range []bool{false, true} {
 			for _, st := range []bool{false, true} {
@@ -422,6 +426,7 @@ func main() {
 					}
 				}
 				c, pan := doClone(b.obj, ks, st)
+				alive = append(alive, c)
 				if pan != "" {
 					fail(4, "clone panicked: "+pan)
 				}
@@ -522,6 +527,7 @@ func main() {
 			Note:     strings.Join(notes, " | "),
 		}
 		w.Put(cs)
+		runtime.KeepAlive(alive)
 	}
 	_ = time.Now
 }
